@@ -17,7 +17,9 @@ MkRange(x, lo, hi) == [op |-> "range", ref |-> "", args |-> <<x>>, min |-> lo, m
 Unbounded == -1
 
 GroupMembers(g) == {n \in NodeNames : g \in Range(NT(n).groups)}
-Names(ref) == IF ref \in NodeNames THEN {ref} ELSE GroupMembers(ref)
+AllGroups == UNION {Range(NodeSpecs[i].groups) : i \in 1..Len(NodeSpecs)}
+NamesTab == [r \in NodeNames \cup AllGroups |-> IF r \in NodeNames THEN {r} ELSE GroupMembers(r)]
+Names(ref) == IF ref \in DOMAIN NamesTab THEN NamesTab[ref] ELSE {}
 
 SeqArgs(x) == IF x.op = "seq" THEN x.args ELSE IF x.op = "eps" THEN <<>> ELSE <<x>>
 MkSeq(xs) == IF Len(xs) = 0 THEN Eps ELSE IF Len(xs) = 1 THEN xs[1] ELSE MkOp("seq", xs)
